@@ -274,31 +274,53 @@ Proof.
          end; inversion H; subst; try exact M; try (apply Hadd; eapply get_entry_inv; eassumption); try (eapply release_in_inv; eassumption).
 Qed.
 
-Theorem sync_node_inv po lab canp apisame held m cached reread outs m' r fx :
-  MapInv m -> (forall n, cached = Some n -> wf_node n) ->
-  sync_node po lab canp apisame held m cached reread outs = (m', r, fx) -> MapInv m'.
+Lemma occupy_service_inv c svc : EntryInv c -> wf_cidr svc -> EntryInv (occupy_service c svc).
 Proof.
-  unfold sync_node. intros M Hw H. destruct cached as [node|]; [|inversion H; subst; exact M].
+  intros I Hw. unfold occupy_service. destruct (pool_of c (cf svc)); [|exact I].
+  destruct (overlapb _ svc); [|exact I]. destruct (cc_occupy c svc) as [c'|e|] eqn:Eo; try exact I.
+  eapply cc_occupy_inv; eassumption.
+Qed.
+
+Lemma occupy_services_inv svcs : forall c, EntryInv c -> Forall wf_cidr svcs -> EntryInv (occupy_services c svcs).
+Proof.
+  unfold occupy_services. induction svcs as [|s svcs IH]; intros c I Hw; cbn [fold_left]; [exact I|].
+  inversion Hw; subst. apply IH; [apply occupy_service_inv; assumption|assumption].
+Qed.
+
+Lemma release_all_inv svcs node : Forall wf_cidr svcs -> wf_node node ->
+  forall ps m0 m2 r2, MapInv m0 -> release_all svcs m0 node ps = (m2, r2) -> MapInv m2.
+Proof.
+  intros Hs Hw. induction ps as [|p ps IH]; intros m0 m2 r2 M0 H; cbn in H; [inversion H; subst; exact M0|].
+  destruct (get_entry m0 p) as [c|] eqn:Eg; [|inversion H; subst; exact M0].
+  assert (Hrp : forall cs c0 c1 r0, EntryInv c0 -> Forall wf_pcidr cs -> release_pcidrs c0 cs = (c1, r0) -> EntryInv c1).
+  { clear. induction cs as [|pc cs IH]; intros c0 c1 r0 I Hw H; cbn in H; [inversion H; subst; exact I|].
+    inversion Hw; subst. destruct pc as [|x canon]; [inversion H; subst; exact I|].
+    destruct (cc_release c0 x) as [c2|e|] eqn:Er; try (inversion H; subst; exact I).
+    eapply IH; [eapply cc_release_inv; eassumption|assumption|exact H]. }
+  destruct (release_pcidrs c (n_cidrs node)) as [c' rr] eqn:Erp.
+  pose proof (Hrp _ _ _ _ (get_entry_inv _ _ _ M0 Eg) Hw Erp) as I'.
+  destruct rr as [[]|e|].
+  - eapply IH; [|exact H]. apply set_entry_inv; [exact M0|apply del_assoc_inv; apply occupy_services_inv; assumption].
+  - inversion H; subst. apply set_entry_inv; assumption.
+  - inversion H; subst. apply set_entry_inv; assumption.
+Qed.
+
+Lemma release_cidr_inv svcs m node m' r : MapInv m -> Forall wf_cidr svcs -> wf_node node -> release_cidr svcs m node = (m', r) -> MapInv m'.
+Proof.
+  intros M Hs Hw Er. unfold release_cidr in Er. destruct (n_cidrs node) eqn:En; [inversion Er; subst; exact M|].
+  destruct (assoc_paths m (n_name node)) as [|p0 ps]; [inversion Er; subst; exact M|].
+  eapply release_all_inv; eassumption.
+Qed.
+
+Theorem sync_node_inv po lab svcs canp apisame held m cached reread outs m' r fx :
+  MapInv m -> Forall wf_cidr svcs -> (forall n, cached = Some n -> wf_node n) ->
+  sync_node po lab svcs canp apisame held m cached reread outs = (m', r, fx) -> MapInv m'.
+Proof.
+  unfold sync_node. intros M Hs Hw H. destruct cached as [node|]; [|inversion H; subst; exact M].
   specialize (Hw node eq_refl).
   destruct (n_deleting node).
-  - destruct (release_cidr m node) as [m1 r1] eqn:Er. inversion H; subst. clear H.
-    unfold release_cidr in Er. destruct (n_cidrs node) eqn:En; [inversion Er; subst; exact M|].
-    destruct (assoc_paths m (n_name node)) as [|p0 ps]; [inversion Er; subst; exact M|].
-    assert (G : forall ps m0 m2 r2, MapInv m0 -> release_all m0 node ps = (m2, r2) -> MapInv m2).
-    { clear - Hw. induction ps as [|p ps IH]; intros m0 m2 r2 M0 H; cbn in H; [inversion H; subst; exact M0|].
-      destruct (get_entry m0 p) as [c|] eqn:Eg; [|inversion H; subst; exact M0].
-      assert (Hrp : forall cs c0 c1 r0, EntryInv c0 -> Forall wf_pcidr cs -> release_pcidrs c0 cs = (c1, r0) -> EntryInv c1).
-      { clear. induction cs as [|pc cs IH]; intros c0 c1 r0 I Hw H; cbn in H; [inversion H; subst; exact I|].
-        inversion Hw; subst. destruct pc as [|x canon]; [inversion H; subst; exact I|].
-        destruct (cc_release c0 x) as [c2|e|] eqn:Er; try (inversion H; subst; exact I).
-        eapply IH; [eapply cc_release_inv; eassumption|assumption|exact H]. }
-      destruct (release_pcidrs c (n_cidrs node)) as [c' rr] eqn:Erp.
-      pose proof (Hrp _ _ _ _ (get_entry_inv _ _ _ M0 Eg) Hw Erp) as I'.
-      destruct rr as [[]|e|].
-      - eapply IH; [|exact H]. apply set_entry_inv; [exact M0|apply del_assoc_inv; exact I'].
-      - inversion H; subst. apply set_entry_inv; assumption.
-      - inversion H; subst. apply set_entry_inv; assumption. }
-    eapply G; eassumption.
+  - destruct (release_cidr svcs m node) as [m1 r1] eqn:Er. inversion H; subst. clear H.
+    eapply release_cidr_inv; eassumption.
   - unfold allocate_or_occupy in H. destruct (n_cidrs node) eqn:En.
     + destruct (prioritized_cidrs po lab held m node) as [m1 rp] eqn:Ep.
       assert (Hp : MapInv m1 /\ match rp with Ok (cs, _) => Forall wf_cidr cs | _ => True end).
@@ -434,13 +456,6 @@ Proof.
 Qed.
 
 (* ---------- construction ---------- *)
-Lemma occupy_service_inv c svc : EntryInv c -> wf_cidr svc -> EntryInv (occupy_service c svc).
-Proof.
-  intros I Hw. unfold occupy_service. destruct (pool_of c (cf svc)); [|exact I].
-  destruct (overlapb _ svc); [|exact I]. destruct (cc_occupy c svc) as [c'|e|] eqn:Eo; try exact I.
-  eapply cc_occupy_inv; eassumption.
-Qed.
-
 Lemma filter_service_inv m svc : MapInv m -> wf_cidr svc -> MapInv (filter_service m svc).
 Proof.
   intros M Hw x Hx. unfold filter_service, all_entries in Hx. apply in_flat_map in Hx. destruct Hx as ([k l] & Hkl & Hx).
@@ -481,27 +496,6 @@ Proof.
   assert (M3 : MapInv m3) by (unfold m3; destruct s2; [apply filter_service_inv; [exact M2|apply H2; reflexivity]|exact M2]).
   destruct (occupy_nodes po lab m3 nodes) as [m4 p4] eqn:Eo. inversion H; subst.
   eapply occupy_nodes_inv; eassumption.
-Qed.
-
-Lemma release_cidr_inv m node m' r : MapInv m -> wf_node node -> release_cidr m node = (m', r) -> MapInv m'.
-Proof.
-  intros M Hw Er. unfold release_cidr in Er. destruct (n_cidrs node) eqn:En; [inversion Er; subst; exact M|].
-  destruct (assoc_paths m (n_name node)) as [|p0 ps]; [inversion Er; subst; exact M|].
-  assert (G : forall ps m0 m2 r2, MapInv m0 -> release_all m0 node ps = (m2, r2) -> MapInv m2).
-  { clear - Hw. induction ps as [|p ps IH]; intros m0 m2 r2 M0 H; cbn in H; [inversion H; subst; exact M0|].
-    destruct (get_entry m0 p) as [c|] eqn:Eg; [|inversion H; subst; exact M0].
-    assert (Hrp : forall cs c0 c1 r0, EntryInv c0 -> Forall wf_pcidr cs -> release_pcidrs c0 cs = (c1, r0) -> EntryInv c1).
-    { clear. induction cs as [|pc cs IH]; intros c0 c1 r0 I Hw H; cbn in H; [inversion H; subst; exact I|].
-      inversion Hw; subst. destruct pc as [|x canon]; [inversion H; subst; exact I|].
-      destruct (cc_release c0 x) as [c2|e|] eqn:Er; try (inversion H; subst; exact I).
-      eapply IH; [eapply cc_release_inv; eassumption|assumption|exact H]. }
-    destruct (release_pcidrs c (n_cidrs node)) as [c' rr] eqn:Erp.
-    pose proof (Hrp _ _ _ _ (get_entry_inv _ _ _ M0 Eg) Hw Erp) as I'.
-    destruct rr as [[]|e|].
-    - eapply IH; [|exact H]. apply set_entry_inv; [exact M0|apply del_assoc_inv; exact I'].
-    - inversion H; subst. apply set_entry_inv; assumption.
-    - inversion H; subst. apply set_entry_inv; assumption. }
-  eapply G; eassumption.
 Qed.
 
 (* ---------- C12: under the invariant no controller call panics ---------- *)
